@@ -126,7 +126,7 @@ static bool gen_c13(uint64_t seed, const std::string &tier, uint64_t i, Plan &p)
   home.set("files", files); Json md = Json::arr(); md.push("Maildir"); home.set("maildirs", md);
   home.set("mbox", "Mailbox").set("mbox_initial", "");
   p.knobs.set("home", home);
-  static const std::vector<std::string> exts = {"", "a", "a-b", "a-b-c", "A", "A-B", "a.b", "a-", "a--b", "x", "x-y", "list", "list-owner", "default", "a-default", "a/b", "../x", "a-b-", "-", "aa", "q", "a:b"};
+  static const std::vector<std::string> exts = {"", "a", "a-b", "a-b-c", "A", "A-B", "a.b", "a-", "a--b", "x", "x-y", "list", "list-owner", "default", "a-default", "a/b", "../x", "a-b-", "-", "aa", "q", "a:b", std::string(250, 'x'), "a-" + std::string(250, 'y'), std::string(120, 'z') + "-" + std::string(130, 'w')};   // (the last three: candidate names beyond NAME_MAX, which cannot exist and must count as absent)
   int nd = (int)r.range(1, 2);
   for (int q = 0; q < nd; q++) {
     Json d = Json::obj(); d.set("op", "deliver").set("id", "d" + std::to_string(q + 1));
